@@ -1,8 +1,18 @@
 (* The ExclusivePublication: invariant of every history, the exact case analysis of one offer / claim,
    and the C04 statements for it. *)
-Require Import V.Base.MachineInt V.Generated.GenConsts V.Model.Descriptor V.Model.LogBase V.Model.Appender
-               V.Model.ExclAppender V.Model.Publication V.Model.ExclPublication
-               V.Proofs.DescriptorProofs V.Proofs.AppenderProofs V.Proofs.PublicationProofs V.Proofs.BulkProofs V.Proofs.C04Proofs.
+Require Import V.Base.MachineInt.
+Require Import V.Generated.GenConsts.
+Require Import V.Model.Descriptor.
+Require Import V.Model.LogBase.
+Require Import V.Model.Appender.
+Require Import V.Model.ExclAppender.
+Require Import V.Model.Publication.
+Require Import V.Model.ExclPublication.
+Require Import V.Proofs.DescriptorProofs.
+Require Import V.Proofs.AppenderProofs.
+Require Import V.Proofs.PublicationProofs.
+Require Import V.Proofs.BulkProofs.
+Require Import V.Proofs.C04Proofs.
 From Coq Require Import ZifyBool.
 Open Scope Z_scope.
 
